@@ -53,7 +53,7 @@ template <class T> struct Blk {
         size_t tot = count + (nul ? 1 : 0);
         // the block still ends where the data ends; it starts verif::g_misalign bytes (whole units) past a 16-byte boundary, so that the
         // two operands of a comparison have every relative and absolute alignment (a function of the case bytes; 0 for half of the cases)
-        const size_t off = (verif::g_misalign & 7) / sizeof(T);
+        const size_t off = (verif::next_misalign() & 7) / sizeof(T);
         base = static_cast<T *>(::malloc((off + (tot ? tot : 1)) * sizeof(T)));
         p = (tot ? base : base + 1) + off;
         if (count) memcpy(p, src, count * sizeof(T));
